@@ -39,10 +39,16 @@ class LatticeOP(OrderParameter):
 class LatticeEngine(EngineBase):
     """Lazy symmetric walk on the integers (stay with probability 1/4) with a reflecting wall."""
 
-    def __init__(self, timestep=1.0, subcycles=1, wall=-6, temperature=1.0, scale=SCALE, cv2=False):
+    def __init__(self, timestep=1.0, subcycles=1, wall=-6, temperature=1.0, scale=SCALE, cv2=False, tag="",
+                 p_up=0.375, p_down=0.375):
         super().__init__("lattice walk", timestep, subcycles)
         self.scale = scale
         self.cv2 = cv2
+        # several engine sections in one configuration (`ensemble_engines` with more than one name per ensemble): the
+        # engines differ observably (step probabilities) and say which of them ran a job (`tag`, logged per propagation)
+        self.tag = tag
+        self.p_up = float(p_up)
+        self.p_down = float(p_down)
         self.ext = "lat"
         self.wall = wall
         self.name = "lattice"
@@ -82,6 +88,11 @@ class LatticeEngine(EngineBase):
 
     def _propagate_from(self, name, path, system, ens_set, msg_file, reverse=False):
         left, _, right = ens_set["interfaces"]
+        if self.tag:
+            import json
+            with open(os.path.join(os.path.dirname(os.path.abspath(self.exe_dir)), "_c06_eng.jsonl"), "a") as f:
+                f.write(json.dumps({"tag": self.tag, "ens": ens_set.get("ens_name"),
+                                    "w": os.path.basename(os.path.abspath(self.exe_dir)), "name": name}) + "\n")
         x = self._read_frames(system.config[0])[0]
         traj_file = os.path.join(self.exe_dir, f"{name}.{self.ext}")
         xs = []
@@ -98,7 +109,7 @@ class LatticeEngine(EngineBase):
                 x += 1
             else:
                 u = self.rgen.random()
-                x += 1 if u < 0.375 else (-1 if u < 0.75 else 0)
+                x += 1 if u < self.p_up else (-1 if u < self.p_up + self.p_down else 0)
         with open(traj_file, "w") as f:
             f.write("\n".join(map(str, xs)) + "\n")
         path.update_energies([0.0] * len(xs), [0.0] * len(xs))
